@@ -432,6 +432,15 @@ class StreamResponse(
             elif version == HttpVersion11:
                 headers[hdrs.CONNECTION] = "close"
 
+    def _is_tunnel(self) -> bool:
+        # 2xx answer to CONNECT: what follows the head is tunnel data
+        req = self._req
+        return (
+            req is not None
+            and req.method == hdrs.METH_CONNECT
+            and 200 <= self._status < 300
+        )
+
     async def _write_headers(self) -> None:
         request = self._req
         assert request is not None
@@ -458,6 +467,11 @@ class StreamResponse(
         if self._payload_writer is None:
             raise RuntimeError("Cannot call write() before prepare()")
 
+        if self._must_be_empty_body and not self._is_tunnel():
+            # HEAD / 204 / 304: the head announces that no body follows
+            # (RFC 9112 section 6.3); the same handler serves GET and HEAD.
+            return
+
         await self._payload_writer.write(data)
 
     async def drain(self) -> None:
@@ -480,6 +494,8 @@ class StreamResponse(
 
         assert self._payload_writer is not None, "Response has not been started"
 
+        if self._must_be_empty_body and not self._is_tunnel():
+            data = b""
         await self._payload_writer.write_eof(data)
         self._eof_sent = True
         self._req = None
